@@ -97,7 +97,7 @@ def observe(sc, r: FunctionResults | None, outcome, layout):
     return ev
 
 
-def single_objective(sc):
+def single_objective(sc, shift=0.0, twin=False):
     R = sc["R"]
     cfg = {"variables": {"initial_values": [0.0, 0.0]},
            "realizations": {"weights": [float(w) for w in sc["rw"]], "realization_min_success": sc["minsucc"]},
@@ -105,15 +105,20 @@ def single_objective(sc):
                           "function_estimators": [EST[sc["est"][0]]]},
            "function_estimators": [{"method": "mean"}, {"method": "stddev"}],
            "realization_filters": [{"method": "sort-objective", "options": {"sort": [0], "first": 0, "last": 0 if R == 1 else R - 2}}]}
-    column = np.array(sc["cols"][0], dtype=np.float64)
+    if twin:
+        # two objectives that return the SAME column, with weights that sum to one only nearly (1 + 2^-17): the weights are
+        # normalised all the same, so the weighted objective is the common objective value
+        cfg["objectives"] = {"weights": [0.5, 0.5 + 2.0 ** -17], "realization_filters": [sc["flt"][0]] * 2,
+                             "function_estimators": [EST[sc["est"][0]]] * 2}
+    column = np.array(sc["cols"][0], dtype=np.float64) + shift
     column[np.array(sc["failed"], dtype=bool)] = np.nan
 
     def evaluator(variables, context):
-        return EvaluatorResult(objectives=column[context.realizations][:, None].copy())
+        return EvaluatorResult(objectives=np.repeat(column[context.realizations][:, None], 2 if twin else 1, axis=1))
 
     res, outcome = outcome_of(lambda: ensemble_evaluator(EnOptConfig.model_validate(cfg), evaluator).calculate(
         np.array([0.0, 0.0]), compute_functions=True, compute_gradients=False))
-    ev = {"ev": "One", "layout": "one", **{k: sc[k] for k in ("R", "rw", "ow", "est", "flt", "cols", "failed", "minsucc")},
+    ev = {"ev": "One", "layout": "one", "shift": int(shift), "twin": bool(twin), **{k: sc[k] for k in ("R", "rw", "ow", "est", "flt", "cols", "failed", "minsucc")},
           "outcome": outcome, "failedObs": [False] * R, "obj": nums([None, None]), "con": nums([None]),
           "wobj": num(None), "orows": [], "crows": [], "stdneg": [False] * 3}
     r = res[0] if res else None
@@ -174,6 +179,11 @@ def drive(sc):
     # the same ensemble as a problem with its first objective only: one objective with an explicit weight other than one
     if sc.get("expect", "ok") == "ok" and sc["flt"][0] in (-1, 0):
         trace.append(single_objective(sc))
+        if sc["est"][0] == "mean":
+            trace.append(single_objective(sc, twin=True))
+        if sc["est"][0] == "std":
+            # a standard deviation does not change when every value is shifted by the same (large, exactly representable) amount
+            trace.append(single_objective(sc, shift=float(2 ** 20)))
     failed = sc["failed"]
     succ = [i for i in range(sc["R"]) if not failed[i]]
     feats = {
